@@ -41,9 +41,10 @@ def h_main(jC: int, jH: int, jO: int, jq: int, qC: int, qH: int, qO: int, qq: in
     out, stats = r
     tw = PART.get("twin")
     allowed = set(pipe.REAL) | set(pc.MERGE)
-    if len(out) != len(PART["shape"]):
+    givens = [r["reaction"] for r in pc.input_rows(PART)]
+    if len(out) != len(givens):
         return True  # row loss is C05's subject
-    for row, given in zip(out, PART["shape"]):
+    for row, given in zip(out, givens):
         if row["input_reaction"] != given:
             return False
         rx = row["reaction"]
